@@ -26,8 +26,8 @@ Open Scope N_scope.
    row keeps NULL in the column, or the write returns and the writer's attribute -- also before the
    lazy flush -- equals (identical or Python ==) what every database read returns, which succeeds,
    and the equality query finds the row.
-   Guards: kind_ok excludes the trigger classes of the findings date_time_kind_unreadable and
-   tzinfo_dropped; guard_engine is `true` outright unless the column is REAL-prone (Float, Decimal,
+   Guards: kind_ok excludes only timezone-aware datetime / time objects handed to DateTimeCol /
+   TimestampCol / TimeCol (finding tzinfo_dropped); guard_engine is `true` outright unless the column is REAL-prone (Float, Decimal,
    Currency) or an integer column receives an integer beyond int64 -- there it is the per-value
    ORACLE engine_exact, false exactly on the findings that live in sqlite's floating point. *)
 Theorem C01_accept_normalise_or_reject_partial :
@@ -48,11 +48,24 @@ Definition C01_accept_normalise_or_reject_full : Prop :=
   forall (C : codecs) (T : coltype) (v : pyval) (w : wpath) (var : variant),
     wf v = true -> consistent (run C T v w var).
 
-(* refuted on the faithful model of the unchanged code, for every codec behaviour: a date handed to
-   a DateTimeCol is accepted, stored as '2020-01-02', and can never be loaded again *)
+(* refuted on the faithful model of the current code, for every codec behaviour: an aware datetime
+   assigned to a DateTimeCol stays aware in the writer, the row holds the naive text (unequal in Python) *)
 Theorem C01_accept_normalise_or_reject_refuted :
-  exists T v, wf v = true /\ forall C w var, guard_engine C T v = true /\ ~ consistent (run C T v w var).
+  exists T v w var, wf v = true /\ forall C, guard_engine C T v = true /\ ~ consistent (run C T v w var).
 Proof. exact (@accept_refuted). Qed.
+
+(* fixed d26c1c0: a date handed to a DateTimeCol is midnight of that day on every path; a time is refused *)
+Theorem C01_date_in_datetime_col_normalised :
+  forall C w var,
+    let o := run C TDateTime d_2020_01_02 w var in
+    o_write o = Ok tt /\ o_cache o = Some (Ok (PDateTime 2020 1 2 0 0 0 0 false)) /\
+    o_db o = Some (Ok (PDateTime 2020 1 2 0 0 0 0 false)) /\ o_found o = Some (Ok true).
+Proof. exact (@date_in_datetime_col). Qed.
+Theorem C01_time_in_datetime_col_refused :
+  forall C w var,
+    let o := run C TDateTime (PTime 1 2 3 0 false) w var in
+    o_write o = Raise E_Invalid /\ o_stored o = SNull.
+Proof. exact (@time_in_datetime_col). Qed.
 
 (* ---------------------------------------------------------------- in-domain values round-trip
    For every value of the column type's documented domain (in_domain), on every write path and
@@ -86,28 +99,28 @@ Definition C01_roundtrip_full : Prop :=
                 (same (expected T v) c /\ pytype c = pytype (expected T v)) /\
                 (same (expected T v) d /\ pytype d = pytype (expected T v)).
 
-(* refuted for every codec behaviour: Decimal('100') in a DECIMAL(10,3) column is held as INTEGER 100
-   and every database read returns the int 100, not a Decimal *)
-Theorem C01_roundtrip_refuted :
-  exists T v, wf v = true /\ coltype_ok T = true /\ in_domain T v = true /\
-    forall C w var, exists d, o_db (run C T v w var) = Some (Ok d) /\ pytype d <> pytype v.
-Proof. exact (@roundtrip_refuted). Qed.
+(* No codec-independent refutation is left: the full statement fails only where sqlite's floating point
+   loses the value (C01_float_misrounded_witness, C01_decimal_stored_as_real_witness below).
+   fixed e4e0676: an integral Decimal is held as INTEGER and now read back as a Decimal *)
+Theorem C01_integral_decimal_reads_decimal :
+  forall C w var,
+    let o := run C (TDecimal 10 3) dec_100 w var in
+    o_write o = Ok tt /\ o_stored o = SInt 100 /\ o_db o = Some (Ok dec_100).
+Proof. exact (@integral_decimal). Qed.
 
 (* ---------------------------------------------------------------- the equality query finds what was written *)
+(* Whenever a write returns -- also for timezone-aware values -- select(col == v) / selectBy(col=v)
+   yields the row.  The only guard left is the engine oracle (outright `true` unless the column is
+   Float / Decimal / Currency or an integer beyond int64 is involved). *)
 Theorem C01_query_finds_partial :
   forall (C : codecs) (T : coltype) (v : pyval) (w : wpath) (var : variant),
-    wf v = true -> kind_ok T v = true -> guard_engine C T v = true ->
+    wf v = true -> guard_engine C T v = true ->
     o_write (run C T v w var) = Ok tt -> o_found (run C T v w var) = Some (Ok true).
 Proof. exact (@query_finds_row). Qed.
 
 Definition C01_query_finds_full : Prop :=
   forall (C : codecs) (T : coltype) (v : pyval) (w : wpath) (var : variant),
     wf v = true -> o_write (run C T v w var) = Ok tt -> o_found (run C T v w var) = Some (Ok true).
-
-Theorem C01_query_finds_refuted :
-  exists T v, wf v = true /\ forall C, guard_engine C T v = true /\
-    o_write (run C T v WSetattr VEager) = Ok tt /\ o_found (run C T v WSetattr VEager) = Some (Raise E_Invalid).
-Proof. exact (@query_refuted). Qed.
 
 (* ---------------------------------------------------------------- SQLObject's own text formats, digit by digit
    what the (regenerated) converters write for a datetime, the microsecond fix-up leaves alone and
@@ -140,6 +153,15 @@ Theorem C01_float_misrounded_witness :
     o_write o = Ok tt /\ o_db o = Some (Ok (PFloat f_wit_back)) /\ pyeq (PFloat f_wit) (PFloat f_wit_back) = false.
 Proof. exact (@float_misrounded). Qed.
 
+(* sqlite 3.40.1 holds 123456789012345678.91, within DecimalCol(size=20, precision=2), as INTEGER 123456789012345680 *)
+Theorem C01_decimal_stored_as_real_witness :
+  forall C, num_store C ANUMERIC dec20_text = Ok (SInt 123456789012345680) ->
+    let o := run C (TDecimal 20 2) dec20_wit WCreate VEager in
+    in_domain (TDecimal 20 2) dec20_wit = true /\
+    o_write o = Ok tt /\ o_db o = Some (Ok (PDec false 123456789012345680 0)) /\
+    pyeq dec20_wit (PDec false 123456789012345680 0) = false.
+Proof. exact (@decimal_as_real). Qed.
+
 (* ---------------------------------------------------------------- non-vacuity *)
 (* a codec behaviour that answers on a handful of inputs the way CPython 3.12 / sqlite 3.40.1 do *)
 Definition f15 : fl := 4609434218613702656.                       (* 1.5 *)
@@ -157,6 +179,7 @@ Definition ex_codecs : codecs := {|
   frepr := fun f => if f =? f15 then t15 else [];
   num_store := fun a s => if str_eqb s t15 || str_eqb s [49; 46; 53; 48] then Ok (SReal f15) else Raise E_Operational;
   float_of_dec := fun _ => 0;
+  float_of_int := fun z => if Z.eqb z 3 then Some 4613937818241073152 else None;
   b64enc := fun b => if str_eqb b b_ex then b_ex64 else if str_eqb b p_ex_bytes then p_ex64 else [];
   b64dec := fun s => if str_eqb s b_ex64 then b_ex else if str_eqb s p_ex64 then p_ex_bytes else [];
   pdumps := fun v => if pyval_eqb v p_ex then p_ex_bytes else [];
@@ -220,18 +243,26 @@ Example C01_example_refused :
   o_write (run ex_codecs TUuid (PStr u_ex_text) WCreate VEager) = Raise E_Invalid /\
   o_row (run ex_codecs TUuid (PStr u_ex_text) WCreate VEager) = false.
 Proof. vm_compute. repeat split; reflexivity. Qed.
+(* fixed 696f023: a FloatCol normalises an int to float (and refuses what float() cannot hold) *)
+Example C01_example_float_col_int :
+  from_python ex_codecs TFloat (PInt 3) = Ok (PFloat 4613937818241073152) /\
+  from_python ex_codecs TFloat (PInt 4) = Raise E_Invalid.
+Proof. vm_compute. split; reflexivity. Qed.
 (* the guards are not vacuous either way *)
 Example C01_guards :
-  kind_ok TDateTime d_2020_01_02 = false /\ kind_ok TDate (PDateTime 2020 1 2 3 4 5 6 true) = true /\
+  kind_ok TDateTime dt_aware = false /\ kind_ok TDateTime d_2020_01_02 = true /\
+  kind_ok TDate (PDateTime 2020 1 2 3 4 5 6 true) = true /\
   guard_engine ex_codecs TFloat (PFloat f15) = true /\ guard_engine ex_codecs TInt (PInt 7) = true.
 Proof. vm_compute. repeat split; reflexivity. Qed.
 
 Print Assumptions C01_accept_normalise_or_reject_partial.
 Print Assumptions C01_accept_normalise_or_reject_refuted.
 Print Assumptions C01_roundtrip_partial.
-Print Assumptions C01_roundtrip_refuted.
+Print Assumptions C01_date_in_datetime_col_normalised.
+Print Assumptions C01_time_in_datetime_col_refused.
+Print Assumptions C01_integral_decimal_reads_decimal.
+Print Assumptions C01_decimal_stored_as_real_witness.
 Print Assumptions C01_query_finds_partial.
-Print Assumptions C01_query_finds_refuted.
 Print Assumptions C01_datetime_text_roundtrip.
 Print Assumptions C01_decimal_text_roundtrip.
 Print Assumptions C01_int_beyond_int64_witness.
